@@ -532,6 +532,16 @@ def junk_inert(P, R, rule='C08.GRD.1'):
             R.ob(rule, ok, s, 'dispatch %s(%s...) receives a freshly looked-up request or a deliberate NULL (states: %s)'
                  % (s.ev.get('callee'), reqvar, sorted(sts)), key='dispatch:%s' % s.ev.get('callee'))
     R.floor(rule, 8, 'dispatch calls taking the request')
+    # the deliberate NULL is for lines that are not about a known client: id -1 ("no client") and announcements; any
+    # other id - negative ones included - is looked up, so that what was announced under it can be withdrawn again
+    for ns in [s for s in fn.stores() if s.ev['k'] == 'store' and is_var(s.ev.get('lhs'), reqvar) and const_of(s.ev.get('rhs')) == 0 and s.ev.get('op') == '=']:
+        for e in fn.inn[ns.bid]:
+            r = rules.edge_rel(e)
+            if not r:
+                continue
+            c = const_of(r[2])
+            okr = (r[1] == '==' and c == -1 and is_var(r[0])) or (r[1] == '==' and c == ord('C'))
+            R.ob(rule, okr, ns, 'the request is deliberately NULL only for id -1 or an announcement (edge %s)' % e.describe(), key='null-why:%s' % ('ok' if okr else e.describe()))
     # no emitting default in the dispatch switch
     sends = rules.May(P, lambda s: rules.is_call(s, 'iauth_send') or rules.is_call(s, 'fputs'))
     for bid in fn.reachable_blocks():
